@@ -43,6 +43,7 @@
  */
 
 #include "tsgAddonsCommon.hpp"
+#include "tsgVerifHooks.hpp"
 
 /*!
  * \ingroup TasmanianAddons
@@ -90,6 +91,7 @@ public:
         candidates = std::move(new_candidates);
         num_candidates = candidates.size() / num_dimensions;
         num_done = 0;
+        TSG_VERIF_EVENT("cm_assign", {(long long) num_candidates, (long long) num_dimensions, (long long) (size_t) candidates.data(), (long long) num_running});
         if (num_candidates == 0) return;
 
         sort_candidates();
